@@ -15,15 +15,17 @@ vars == <<op, k, kind, persist, log, faulted, nfaults, result, mutated, pc>>
 Cleanup  == {"file.Close"}
 ReadOnly == {"readerat.ReadAt", "file.Read", "file.ReadAt", "file.Stat", "fs.Open", "fs.Stat"}     \* looking further at the input changes nothing: allowed after a fault
 Mutating == {"fs.OpenFile", "fs.Create", "file.Write", "file.WriteAt", "file.Truncate", "fs.Remove", "fs.Rename"}
-Kinds(d) == IF d = "file.Write" THEN {"error", "short", "short1", "short4"}       \* short counts: half, all but one, all but four bytes
+Kinds(d) == IF d = "file.Write" THEN {"error", "eintr", "eagain", "short", "short1", "short4"}       \* short counts: half, all but one, all but four bytes
             ELSE IF d = "readerat.ReadAt" THEN {"error", "eof", "eof1", "eof0"}                       \* eof: short count + io.EOF (file truncated underneath)
-            ELSE IF d = "file.Read" THEN {"error", "partial-error", "partial"} ELSE {"error"}
+            ELSE IF d = "file.Read" THEN {"error", "eintr", "eof0", "partial-error", "partial"} ELSE {"error", "eintr"}
+(* eintr / eagain: errors that look transient (an interrupted call, a busy token): the operation reports them like any other, it does *)
+(* not quietly try again; eof0: the file ends although its size promised more bytes (no bytes, io.EOF)                              *)
 (* partial-error: some of the requested bytes arrive together with an error; partial: a short count WITHOUT an error, which *)
 (* is not a failure under the io.Reader contract - the operation has to read on and either succeed with the whole value     *)
 (* or report an error, never succeed with the part (Benign below).                                                           *)
 Benign == {"partial"}
 
-Init == /\ op \in DOMAIN Ops /\ k \in 0..Len(Ops[op]) /\ kind \in {"error", "short", "short1", "short4", "eof", "eof1", "eof0", "partial-error", "partial"}
+Init == /\ op \in DOMAIN Ops /\ k \in 0..Len(Ops[op]) /\ kind \in {"error", "short", "short1", "short4", "eof", "eof1", "eof0", "partial-error", "partial", "eintr", "eagain"}
         /\ (k = 0 => kind = "error") /\ (k > 0 => kind \in Kinds(Ops[op][k]))
         /\ persist \in BOOLEAN /\ (k = 0 \/ kind # "error" => persist = FALSE) /\ nfaults = 0
         /\ log = <<>> /\ faulted = FALSE /\ result = "none" /\ mutated = FALSE /\ pc = "run"
